@@ -205,6 +205,11 @@ def handle (d : DS) (line : String) : DS × String :=
       | "writefile", some m => some (writeFileP tmpdir d.dest m chunks)
       | "fstreeput", _ => some (fstreePutP tmpdir d.dest chunks)
       | "createatomic", some m => some (createAtomicP optdir tmpdir d.dest m chunks (get "readfails" = "1"))
+      | "fetch", _ =>
+        -- the folders EnsureAbsPath walks: storage root (0755) and every directory down to the destination's
+        let storage := parsePath (get "storage")
+        let dirs := (List.range (d.dest.length - storage.length)).map (fun i => (d.dest.take (storage.length + i), 0o755))
+        some (fetchFileP dirs (storage ++ ["tmp"]) d.dest chunks (get "httpfails" = "1") (get "bodyfails" = "1"))
       | "fileunpack", _ => optdir.map (fun od => fileUnpackP od tmpdir d.dest chunks (get "readfails" = "1"))
       | "symlink", _ => some (symlinkP (get "target") d.dest)
       | "nothing", _ => some (.ret true)
